@@ -1499,4 +1499,60 @@ theorem refusal_is_parsingError (db : Db) (mem : Mem) (op : Op) (hb : bindable o
   | isoToDb i am aa => exact key (intRel_isoToDb i am aa hb)
   | isoDelete id => exact key (intRel_isoDelete id)
 
+
+/-! ### non-vacuity: concrete instances (kernel evaluation of the executable model) -/
+
+/-- a concrete file: one material, one adsorbate with a property, the three isotherm types, one isotherm -/
+def db0 : Db :=
+  { Db.empty with
+    ads := ["N2"], mats := ["MOF-1"],
+    adsTypes := [("formula", "", "")], adsProps := [("N2", "formula", "N2")],
+    isoTypes := [("isotherm", ""), ("pointisotherm", ""), ("modelisotherm", "")],
+    isos := [("iso1", "pointisotherm", "MOF-1", "N2", "77.0")],
+    isoProps := [("iso1", "pressure_unit", "bar")],
+    isoData := [("iso1", "pressure", "float", "[1,2]")] }
+
+def mem0 : Mem := ⟨["N2"], ["MOF-1"]⟩
+
+/-- a new isotherm on a new material and a new adsorbate (both auto-inserted) -/
+def iso2 : IsoIn :=
+  { id := "iso2", isoType := "pointisotherm", material := some "MOF-2", matProps := [("density", [some "1.2"])],
+    adsorbate := some "CO2", adsProps := [("formula", [some "CO2"])], temperature := some "298.0",
+    props := [("pressure_unit", .val "bar")], data := [("pressure", "float", "[1]")] }
+
+example : db0.wellFormed = true := by decide +kernel
+
+/-- an accepted upload: outcome and exact content -/
+example :
+    (runOp db0 mem0 (.adsToDb (some "CO2") [("formula", [some "CO2"]), ("alias", [some "a", some "b"])] true false) none).out = .ok ∧
+    (runOp db0 mem0 (.adsToDb (some "CO2") [("formula", [some "CO2"]), ("alias", [some "a", some "b"])] true false) none).db =
+      { db0 with ads := ["N2", "CO2"], adsTypes := [("formula", "", ""), ("alias", "", "")],
+                 adsProps := [("N2", "formula", "N2"), ("CO2", "formula", "CO2"), ("CO2", "alias", "a"), ("CO2", "alias", "b")] } := by
+  decide +kernel
+
+/-- a refused duplicate changes nothing -/
+example : (runOp db0 mem0 (.adsToDb (some "N2") [] true false) none).out = .parsingError ∧
+          (runOp db0 mem0 (.adsToDb (some "N2") [] true false) none).db = db0 := by decide +kernel
+
+/-- a referenced adsorbate cannot be deleted; the isotherm can, and then the adsorbate can -/
+example : (runOp db0 mem0 (.adsDelete "N2") none).out = .parsingError ∧
+          (runOp (runOp db0 mem0 (.isoDelete "iso1") none).db mem0 (.adsDelete "N2") none).out = .ok := by decide +kernel
+
+/-- an isotherm upload with both auto-insertions: 13 statements, accepted, the file changes and stays well formed -/
+example : (runOp db0 mem0 (.isoToDb iso2 true true) none).out = .ok ∧
+          (runOp db0 mem0 (.isoToDb iso2 true true) none).db ≠ db0 ∧
+          (runOp db0 mem0 (.isoToDb iso2 true true) none).db.wellFormed = true ∧
+          stmtCount db0 mem0 (.isoToDb iso2 true true) = 13 := by decide +kernel
+
+/-- a fault at statement 3 of that upload leaves the file unchanged -/
+example : (runOp db0 mem0 (.isoToDb iso2 true true) (some (3, .operational))).out = .otherError ∧
+          (runOp db0 mem0 (.isoToDb iso2 true true) (some (3, .operational))).db = db0 := by decide +kernel
+
+/-- **finding** (`unbindable_value_other_error`): a property value sqlite cannot bind (a dict or a list) is NOT refused with a
+`ParsingError` — the `ProgrammingError` propagates untranslated (the file is still unchanged); so the hypothesis
+`bindable` of `refusal_is_parsingError` cannot be dropped -/
+theorem unbindable_value_other_error :
+    (runOp db0 mem0 (.isoToDb { iso2 with props := [("x", .unsupported)] } true true) none).out = .otherError ∧
+    (runOp db0 mem0 (.isoToDb { iso2 with props := [("x", .unsupported)] } true true) none).db = db0 := by decide +kernel
+
 end PgVerif.C08
